@@ -131,8 +131,16 @@ fn pipeline(args: &[String]) -> Value {
 
     let mut traces: HashMap<Trace, (u64, u64)> = HashMap::new(); // trace -> (first input index, count)
     let mut sigs: HashSet<[u8; 8]> = HashSet::new();
-    for i in lo..hi {
-        rng.buf = pipeline_input(seed, i);
+    // optional extra RNG outputs (hex, one 64-byte script per line): e.g. seeds predicted to drive rare
+    // events inside key generation
+    let extras: Vec<[u8; 64]> = match args.get(5) {
+        Some(path) => std::fs::read_to_string(path).unwrap_or_default().lines().filter(|l| l.len() == 128)
+            .map(|l| { let v: Vec<u8> = (0..64).map(|i| u8::from_str_radix(&l[2 * i..2 * i + 2], 16).unwrap()).collect(); v.try_into().unwrap() }).collect(),
+        None => Vec::new(),
+    };
+    let n_extra = extras.len() as u64;
+    for i in lo..hi + n_extra {
+        rng.buf = if i < hi { pipeline_input(seed, i) } else { extras[(i - hi) as usize] };
         rng.pos = 0;
         sancov_rt::open(0);
         let n = pipeline_call(set, &mut rng, &msg, &mut out);
@@ -150,7 +158,7 @@ fn pipeline(args: &[String]) -> Value {
         let ib = distinct[1].1 .0;
         let mut logs = Vec::new();
         for i in [ia, ib] {
-            rng.buf = pipeline_input(seed, i);
+            rng.buf = if i < hi { pipeline_input(seed, i) } else { extras[(i - hi) as usize] };
             rng.pos = 0;
             sancov_rt::open(8_000_000);
             let _ = pipeline_call(set, &mut rng, &msg, &mut out);
@@ -158,14 +166,14 @@ fn pipeline(args: &[String]) -> Value {
             logs.push(sancov_rt::take_log());
         }
         divergence = first_divergence(&logs[0], &logs[1]);
-        divergence["input_a"] = json!(hex(&pipeline_input(seed, ia)));
-        divergence["input_b"] = json!(hex(&pipeline_input(seed, ib)));
+        divergence["input_a"] = json!(hex(&if ia < hi { pipeline_input(seed, ia) } else { extras[(ia - hi) as usize] }));
+        divergence["input_b"] = json!(hex(&if ib < hi { pipeline_input(seed, ib) } else { extras[(ib - hi) as usize] }));
     }
     json!({
         "stage": "pipeline", "set": set, "lo": lo, "hi": hi, "seed": seed, "guards": sancov_rt::guards(),
         "anchor_runtime_pc": format!("0x{:x}", pipeline_call as *const () as usize),
-        "runs": hi - lo, "distinct_traces": distinct.len(), "distinct_signatures": sigs.len(),
-        "traces": distinct.iter().take(4).map(|(t, (first, n))| { let mut v = trace_json(t); v["first_input_index"] = json!(first); v["runs"] = json!(n); v["first_input"] = json!(hex(&pipeline_input(seed, *first))); v }).collect::<Vec<_>>(),
+        "runs": hi - lo + n_extra, "extra_inputs": n_extra, "distinct_traces": distinct.len(), "distinct_signatures": sigs.len(),
+        "traces": distinct.iter().take(4).map(|(t, (first, n))| { let mut v = trace_json(t); v["first_input_index"] = json!(first); v["runs"] = json!(n); v["first_input"] = json!(hex(&if *first < hi { pipeline_input(seed, *first) } else { extras[(*first - hi) as usize] })); v }).collect::<Vec<_>>(),
         "divergence": divergence,
     })
 }
@@ -424,7 +432,7 @@ fn main() {
         std::process::exit(2);
     }
     let (val, out): (Value, Option<&String>) = match args[1].as_str() {
-        "pipeline" => (pipeline(&args[2..6]), args.get(6)),
+        "pipeline" => (pipeline(&args[2..]), args.get(6)),
         "kernels" => (kernels_stage(&args[2..4]), args.get(4)),
         "taint" => (taint_stage(&args[2..3]), args.get(3)),
         "one" => {
